@@ -303,6 +303,61 @@ def rule_rbf_extract(chk, prog, tree):
     if len(stores) != 1:
         raise core.AnalysisError("RBFEvaluator.__init__: expected exactly one attribute computed from length_scale")
     exps_attr = stores[0].targets[0].attr
+    # the column selection is paired POSITIONALLY with the exponent array (kernel's length-scale order): the
+    # index array must not be sorted / de-duplicated / permuted on its way into the attribute used for selection
+    callfn = er.anchor(prog, XE, "RBFEvaluator.__call__")[1]
+    xparam = callfn.args.args[1].arg
+    sel = None
+    for n in pf.walk_no_nested(callfn):
+        if isinstance(n, ast.Subscript) and pf.base_name(n) == xparam:
+            for y in ast.walk(n.slice):
+                if pf.is_self_attr(y):
+                    sel = y.attr
+    inst = "RBFEvaluator: the selection index keeps the order of the kernel's length scales"
+    if sel is None:
+        chk.ok("rbf-extract", inst + " (no selection)", nontrivial=False)
+    else:
+        REORDER = {"np.unique", "numpy.unique", "np.sort", "numpy.sort", "sorted", "np.argsort", "np.lexsort", "set",
+                   "frozenset", "np.flip", "reversed", "np.random.permutation"}
+        todo, seen, bad = [], set(), None
+        for n in pf.walk_no_nested(fn):
+            if isinstance(n, ast.Assign) and any(pf.is_self_attr(t, sel) for t in n.targets):
+                todo += [x.id for x in ast.walk(n.value) if isinstance(x, ast.Name)]
+                for c_ in ast.walk(n.value):
+                    if isinstance(c_, ast.Call) and pf.call_name(c_) in REORDER:
+                        bad = (n, c_)
+        while todo:
+            nm = todo.pop()
+            if nm in seen or nm == "np":
+                continue
+            seen.add(nm)
+            for st_, v_, k_ in er.assigns_to(fn, nm):
+                if v_ is None:
+                    continue
+                for c_ in ast.walk(v_):
+                    if isinstance(c_, ast.Call) and (pf.call_name(c_) in REORDER or (
+                            isinstance(c_.func, ast.Attribute) and c_.func.attr == "sort")):
+                        bad = bad or (st_, c_)
+                if isinstance(v_, ast.Name):
+                    todo.append(v_.id)
+                elif isinstance(v_, ast.Call) and v_.args and isinstance(v_.args[0], ast.Name) \
+                        and pf.call_name(v_) in ("np.array", "np.asarray", "np.ascontiguousarray", "list", "np.unique",
+                                                 "np.sort", "sorted"):
+                    todo.append(v_.args[0].id)
+            for st_ in pf.walk_no_nested(fn):
+                if isinstance(st_, ast.Expr) and isinstance(st_.value, ast.Call) \
+                        and isinstance(st_.value.func, ast.Attribute) and st_.value.func.attr == "sort" \
+                        and pf.base_name(st_.value.func.value) == nm:
+                    bad = bad or (st_, st_.value)
+        if bad:
+            st_, c_ = bad
+            chk.violation("rbf-extract", XE, "RBFEvaluator.__init__", pf.src(st_).splitlines()[0][:110], st_.lineno,
+                          "`%s` re-orders the index array that selects the input columns (self.%s), while the exponent "
+                          "array self.%s stays in the order of the kernel's length scales: for a subset that is not "
+                          "ascending and duplicate-free the exponents are attached to the wrong columns"
+                          % (pf.src(c_)[:60], sel, exps_attr), instance=inst)
+        else:
+            chk.ok("rbf-extract", inst, detail="self.%s <- %s" % (sel, sorted(seen)))
     v = stores[0].value
     while isinstance(v, ast.Call) and pf.call_name(v) in ("np.ascontiguousarray", "np.asarray", "np.array") and v.args:
         v = v.args[0]
@@ -405,6 +460,13 @@ def rule_rbf_extract(chk, prog, tree):
     else:
         raise core.AnalysisError("%s: no accumulation of the form acc += %s[j] * d * d (d one difference of two array "
                                  "elements) was recognised" % (helper, hname))
+
+
+def rule_accumulate_shared(chk, tree):
+    import importlib
+    c04 = importlib.import_module("checks.c04")
+    prog4 = pf.Program(tree, [c04.XE, c04.XE2])
+    c04.rule_accumulate(chk, prog4, tree)
 
 
 def mapping_function(prog, name):
@@ -1001,6 +1063,66 @@ def rule_weight_axis(chk, prog):
 
 
 # ----------------------------------------------------------------------------
+# rule 9: the spline grid covers the declared bounds of the feature map
+# ----------------------------------------------------------------------------
+def rule_grid_extent(chk, prog):
+    """The mapping functions pass `bound=<feature map>.bounds` to the helper that lays out one grid dimension.
+    When a bound is given, the extent returned by that helper must be exactly the bound: mixing it with the
+    range of the control points (max/min with np.min(x)/np.max(x)) leaves parts of the declared feature domain
+    outside the spline."""
+    mt = prog.module(MT)
+    helpers = {}
+    for name in mt.functions:
+        for c in ast.walk(mt.functions[name]):
+            if isinstance(c, ast.Call) and isinstance(c.func, ast.Name) and c.func.id in mt.functions:
+                for kw in c.keywords:
+                    if kw.arg and any(isinstance(x, ast.Attribute) and x.attr == "bounds" for x in ast.walk(kw.value)):
+                        helpers[c.func.id] = kw.arg
+    if not helpers:
+        raise core.AnalysisError("no mapping function passes `<map>.bounds` to a grid-layout helper")
+    for hname, bparam in sorted(helpers.items()):
+        fn = mt.functions[hname]
+        rets = [n for n in pf.walk_no_nested(fn) if isinstance(n, ast.Return)]
+        if len(rets) != 1 or not isinstance(rets[0].value, ast.Tuple) or len(rets[0].value.elts) < 2 \
+                or not all(isinstance(e, ast.Name) for e in rets[0].value.elts[:2]):
+            raise core.AnalysisError("%s: expected `return (lo, hi, ...)` of names" % hname)
+        lo, hi = (e.id for e in rets[0].value.elts[:2])
+        inst = "%s: with a bound given, the grid extent (%s, %s) is the bound itself" % (hname, lo, hi)
+        problems = []
+        for nm, k in ((lo, 0), (hi, 1)):
+            # definitions of the extent that can reach the return when `bound is not None`
+            g = cfgm.CFG(fn)
+            rnode = g.node_of(rets[0])
+            ok_def = False
+            for d in er.reaching_defs(g, nm, rnode):
+                if d is None:
+                    continue
+                conds = cfgm.conditions_at(d.ast)
+                under = any(pol and isinstance(t, ast.Compare) and pf.src(t.left) == bparam
+                            and isinstance(t.ops[0], ast.IsNot) for t, pol, kk in conds)
+                if not under:
+                    # the unconditional data-driven default; it must be overwritten when a bound is given
+                    continue
+                vals = [v for s_, v, kk in er.assigns_to(fn, nm) if s_ is d.ast]
+                v = vals[0] if vals else None
+                if v is not None and er.names_in(v) <= {bparam}:
+                    ok_def = True
+                else:
+                    problems.append((d.ast, nm))
+            if not ok_def and not problems:
+                problems.append((rets[0], nm))
+        if problems:
+            st, nm = problems[0]
+            chk.violation("grid-extent", MT, hname, pf.src(st).splitlines()[0][:110], st.lineno,
+                          "when `%s` is given, `%s` must be taken from it alone, but it is computed from other "
+                          "quantities (the range of the control points): the spline grid no longer covers the "
+                          "declared bounds of the feature map, and inputs inside the bounds but outside the "
+                          "training range are extrapolated" % (bparam, nm), instance=inst)
+        else:
+            chk.ok("grid-extent", inst)
+
+
+# ----------------------------------------------------------------------------
 # rule 6: order-n scale multiplies the terms of order n
 # ----------------------------------------------------------------------------
 def _comb(n, k):
@@ -1230,6 +1352,14 @@ def _analyse_own(chk):
     chk.rule("weight-axis", "mapping functions: alpha (one weight per control point) is sized against X.shape[0]")
     chk.guard(rule_weight_axis, prog)
     chk.floor("weight-axis", 2, "mapping functions taking (X, alpha)")
+    chk.rule("grid-extent", "the grid-layout helper returns the declared bounds as extent whenever a bound is given")
+    chk.guard(rule_grid_extent, prog)
+    chk.floor("grid-extent", 1, "get_dim")
+    # mapped evaluators accumulate into the shared res/dres, in Python and in C (rules of C04, same code)
+    chk.rule("accumulate-py", "FuncEvaluator.__call__ writes res/dres only by += / -= or checked delegation")
+    chk.rule("accumulate-c", "C kernels behind the native evaluators write out/outd only by compound assignment")
+    chk.guard(rule_accumulate_shared, tree)
+    chk.floor("accumulate-c", 3, "3 native kernels")
     chk.rule("scale-order", "arbf_args lays out one scale per index set by ascending order; the mapper reads that "
                             "layout unshifted")
     chk.guard(rule_scale_order, prog)
@@ -1364,6 +1494,17 @@ def mutants(tree):
                expect="index-space"),
         Mutant("linear mapper: weights sized against the feature axis", MT, "assert X.shape[0] == alpha.size",
                "assert X.shape[1] == alpha.size", expect="weight-axis"),
+        Mutant("RBFEvaluator: selection index sorted, exponents left in kernel order", XE,
+               "            indexes = np.arange(X1ctrl.shape[-1])[kernel.indexes]\n",
+               "            indexes = np.arange(X1ctrl.shape[-1])[kernel.indexes]\n            indexes = np.unique(indexes)\n",
+               expect="rbf-extract"),
+        Mutant("get_dim: bounds intersected with the control-point range", MT,
+               "        mini, maxi = bound[0], bound[1]\n", "        mini = max(mini, bound[0])\n        maxi = min(maxi, bound[1])\n",
+               expect="grid-extent"),
+        Mutant("get_dim: upper bound ignored", MT, "        mini, maxi = bound[0], bound[1]\n", "        mini = bound[0]\n",
+               expect="grid-extent"),
+        Mutant("C kernel assigns instead of accumulating", MU_C_REL, "out[i] += tot;", "out[i] = tot;",
+               expect="accumulate-c"),
         Mutant("mapper: scale shifted before the constant term is formed", MT, fn=_shift_scale_early,
                expect="scale-order"),
         Mutant("arbf_args: order-2 block uses the order-1 scale", KN,
